@@ -85,28 +85,34 @@ func runReplay(path, scratch string) int {
 	}
 
 	cs := callByName(r.Call)
-	comps := strings.Split(r.Query, "/")
 	q := r.Query
 
 	if mode == 0 {
 		q = w.R + "/" + r.Query
 	}
 
-	via, dd := w.classifyPath(mode, comps)
+	e.unclean = w.hasUncleanTargets()
+	e.kcache = map[string]*kres{}
+	e.clsCache = map[string]classes{}
+	cls := e.classify(mode, q)
 
 	var (
 		rk, rv fsx.Res
 		fs     []finding
 	)
 
+	var kd, vd []string
+
 	if cs.Mut {
-		rk, rv, fs = e.evalMut(cs, q)
+		rk, kd = e.mutK(cs, q)
+		rv, vd = e.mutV(cs, q)
+		fs = e.compareMut(cs, rk, kd, rv, vd)
 	} else {
 		rk, rv = w.run(w.k, cs, q), w.run(w.v, cs, q)
-		fs = e.compareRO(cs, comps, rk, rv)
+		fs = e.compareRO(cs, q, rk, rv)
 	}
 
-	fmt.Printf("cwd=%s query=%s via=%s dd=%s\ncall: %s\nkernel: %s %s\navfs:   %s %s\n", modeNames[mode], r.Query, via, dd,
+	fmt.Printf("cwd=%s query=%s via=%s final=%s\ncall: %s\nkernel: %s %s\navfs:   %s %s\n", modeNames[mode], r.Query, cls.via, cls.final,
 		e.clean(w.callString(cs, q)), e.clean(rk.String()), e.clean(rk.Msg), e.clean(rv.String()), e.clean(rv.Msg))
 
 	for _, f := range fs {
